@@ -507,7 +507,10 @@ class expandafter(Command):
         if isinstance(aftertok, Macro):
             expanded = aftertok.invoke(tex)
 
-        expanded = expanded or [aftertok]
+        # An empty expansion is an expansion too; only a macro that does
+        # not expand (invoke returns None) stays in the stream itself
+        if expanded is None:
+            expanded = [aftertok]
 
         return [nexttok] + expanded
 
